@@ -28,6 +28,7 @@ pub fn drive(base: &Xstate, src: &str, mode: usize, recording: bool, with_input:
     let _ = xs.intercept_output(true);
     xs.set_recording_enabled(recording);
     xs.set_insn_limit(Some(LIMIT)).unwrap();
+    watch::note(src);
     let r = guarded(|| match mode {
         0 => xs.eval(src),
         1 => xs.compile(src).and_then(|_| xs.run()),
